@@ -567,6 +567,10 @@ pub fn run() {
                                 if pop_s == "other" {
                                     return Err(std::io::Error::new(std::io::ErrorKind::Other, "populate: other"));
                                 }
+                                // "pnf:<content>[:chunks]": writes what it has, then reports NotFound
+                                let partial_nf = pop_s.starts_with("pnf:");
+                                let pop_s: String = if partial_nf { format!("val:{}", &pop_s[4..]) } else { pop_s.to_string() };
+                                let pop_s = pop_s.as_str();
                                 let (content, chunks) = if pop_s.starts_with("val:rep:") {
                                     let parts: Vec<&str> = pop_s.split(':').collect();
                                     (format!("rep:{}:{}", parts[2], parts[3]), parts.get(4).map(|s| s.parse().unwrap()).unwrap_or(1))
@@ -577,7 +581,11 @@ pub fn run() {
                                     let chunks: usize = it.next().map(|s| s.parse().unwrap()).unwrap_or(1);
                                     (content, chunks)
                                 };
-                                write_chunks(dst, &expand(&content), chunks)
+                                write_chunks(dst, &expand(&content), chunks)?;
+                                if partial_nf {
+                                    return Err(std::io::Error::new(std::io::ErrorKind::NotFound, "populate: source vanished"));
+                                }
+                                Ok(())
                             };
                             let r = if kind == "ensure" {
                                 caches[h].ensure(key(3), |dst| populate(dst, None))
